@@ -5,13 +5,22 @@ Proved for EVERY input (any octet string, any start position inside it, length-d
 terminator): no octet outside the input is read (`no_outside_read`), the reader terminates - the
 recursion over nested lists never runs out of its fuel of length + 1 (`terminates`), an error
 status never comes with a tree (`error_no_tree`), a success reports a position inside the input
-and behind the start (`success_forward`).  NOT proved (correspondence only): that the rendering of
-every tree parses back to that tree (`parse_render`), and leak freedom (observed by LeakSanitizer).
+and behind the start (`success_forward`).
+
+Proved for EVERY tree of the statement and EVERY rendering of it (`Spec.Sx.Expr`: symbols, decimal
+and `#x` integers with digits in either case and any leading zeros, nested proper lists including
+empty ones, any white space in front of any token): the reader returns exactly that tree and the
+position just past the rendering (`parse_rendering`), wherever the rendering starts in the input
+and whatever follows it (a delimiter or the end, after a symbol or number).  Every such tree has a
+rendering (`render_is_rendering`), hence `parse_render`: reading `render t` gives back `t`.
+NOT proved: leak freedom of the C code (observed by LeakSanitizer and a malloc ledger).
 -/
 import Ufw.Model.Sx
+import Ufw.Spec.Sx
 import Ufw.Lemmas.Sx
+import Ufw.Lemmas.SxRender
 namespace Ufw.Props.C20
-open Ufw Ufw.Model.Sx Ufw.Lemmas.Sx
+open Ufw Ufw.Model.Sx Ufw.Lemmas.Sx Ufw.Spec.Sx Ufw.Lemmas.SxRender
 /-- an error status never comes with a tree -/
 theorem error_no_tree (s : List Octet) (i : Nat) : (sx_parse s i).isError = true → (sx_parse s i).node = none := by
   simp only [sx_parse]
@@ -77,7 +86,47 @@ theorem list_reader_safe (s : List Octet) (fuel i : Nat) (h : i ≤ s.length) (h
     (sx_parse_list s fuel i).status ≠ .oob ∧ (sx_parse_list s fuel i).status ≠ .diverge :=
   ⟨(list_shape s fuel i h hf).noOob, (list_shape s fuel i h hf).noDiverge⟩
 
+/-- The reader inverts printing: for every tree `t` and every rendering `r` of it, reading at the start
+    of `ws ++ r` (any white space `ws`), anywhere in an input (`pre` in front, `rest` behind - a
+    symbol or number must be followed by a delimiter or the end), yields exactly `t` and the position
+    just past `r`. -/
+theorem parse_rendering (t : Tree) (r : List Octet) (h : Expr t r) (pre ws rest : List Octet) (hw : AllWs ws)
+    (he : AtomEnd rest) :
+    sx_parse (pre ++ (ws ++ (r ++ rest))) pre.length =
+      { status := .success, node := some t, pos := pre.length + ws.length + r.length } := by
+  match h with
+  | .atom _ _ ha => exact parse_atom t r ha pre ws rest hw he
+  | .list _ body hb => exact parse_list t body hb pre ws rest hw
+
+/-- every tree of the statement (symbols, integers below 2^64, proper lists) has a rendering -/
+theorem render_is_rendering (t : Tree) (h : Proper t) : Expr t (render t) := (render_ok t h).1
+
+/-- reading the canonical rendering of a tree, after any white space, gives back the tree and
+    reports the end of the input -/
+theorem parse_render (t : Tree) (h : Proper t) (ws : List Octet) (hw : AllWs ws) :
+    sx_parse (ws ++ render t) 0 = { status := .success, node := some t, pos := (ws ++ render t).length } := by
+  have := parse_rendering t (render t) (render_is_rendering t h) [] ws [] hw trivial
+  simpa using this
+
+/-- every unsigned 64-bit integer in upper- or lower-case hexadecimal: a rendering in the sense above -/
+theorem hex_rendering (ds : List Octet) (hne : ds ≠ []) (h : ∀ d ∈ ds, isHex d = true) (hv : value 16 ds < 2 ^ 64) :
+    sx_parse (35#8 :: 120#8 :: ds) 0 =
+      { status := .success, node := some (.int (value 16 ds)), pos := ds.length + 2 } := by
+  have := parse_rendering _ _ (Expr.atom _ _ (Atom.hex ds hne h hv)) [] [] [] (fun _ hc => by cases hc) trivial
+  simpa using this
+
 /-! #### concrete instances (these are tests, labelled as such) -/
+
+-- the hypotheses are satisfiable by a non-trivial tree: (ab (7 ()) x)
+example : Proper (.cons (.sym [97#8, 98#8]) (.cons (.cons (.int 7) (.cons .nil .nil)) (.cons (.sym [120#8]) .nil))) := by
+  refine ⟨⟨97#8, [98#8], rfl, by decide, by decide⟩,
+    ⟨⟨?_, ⟨trivial, trivial, trivial⟩, trivial⟩, ⟨⟨120#8, [], rfl, by decide, by decide⟩, trivial, trivial⟩, trivial⟩, trivial⟩
+  show 7 < 2 ^ 64
+  decide
+example : render (.cons (.sym [97#8, 98#8]) (.cons (.cons (.int 7) (.cons .nil .nil)) (.cons (.sym [120#8]) .nil))) =
+    [40#8, 97#8, 98#8, 32#8, 40#8, 55#8, 32#8, 40#8, 41#8, 41#8, 32#8, 120#8, 41#8] := by
+  simp [render, renderTail, decDigits]
+
 
 -- "(a (1 #xFf) ())" parses to (a (1 255) ()) and reports position 15
 example : sx_parse (([40, 97, 32, 40, 49, 32, 35, 120, 70, 102, 41, 32, 40, 41, 41] : List Nat).map (BitVec.ofNat 8)) 0 =
